@@ -171,10 +171,14 @@ def evalE (D : J) (sc : List J) : Expr → J
   | .cond c t f => match evalE D sc c with | .unsup => .unsup | v => if v.truthy then evalE D sc t else evalE D sc f
 end
 
+def pieceVal (D : J) (sc : List J) : Sum String Expr → J
+  | .inl s => .str s
+  | .inr e => evalE D sc e
+
 def evalTE (D : J) (sc : List J) : TE → J
   | .expr e => evalE D sc e
   | .mix ps =>
-    let parts := ps.map fun p => match p with | .inl s => J.str s | .inr e => evalE D sc e
+    let parts := ps.map (pieceVal D sc)
     if parts.any J.hasUnsup then .unsup else .str (String.join (parts.map fun v => match v with | .str s => s | v => v.y))
 
 /-- the instance: values as above, every guard answers "may have changed"; a tree is one bit, "is `undefined`": when the whole data
